@@ -120,6 +120,26 @@ func (st *State) intrinsic(g *G, fr *Frame, name string, fn *ssa.Function, args 
 		return nil, false
 	case "Yield":
 		return nil, false
+	case "FireTimersUpTo":
+		// time advances to `d`: every pending timer channel with a constant duration <= d becomes ready
+		lim := args[0].(*Term)
+		n := 0
+		mark := func(c *ChanObj) {
+			if c != nil && c.Timer && !c.Fired && !c.Ready && c.TimerD != nil && c.TimerD.Const && lim.Const && signed(64, c.TimerD.U) <= signed(64, lim.U) {
+				c.Ready = true
+				n++
+			}
+		}
+		for _, o := range st.gs {
+			if o.Status != "blocked" || o.Wait == nil {
+				continue
+			}
+			mark(o.Wait.ch)
+			for _, sc := range o.Wait.sel {
+				mark(sc.ch)
+			}
+		}
+		return BV(64, uint64(n)), false
 	case "FireTimers":
 		// one-shot: every timer channel some goroutine currently waits on becomes ready (later timers are not affected)
 		n := 0
@@ -283,8 +303,11 @@ func (st *State) intrinsic(g *G, fr *Frame, name string, fn *ssa.Function, args 
 			if k := strings.LastIndex(tn, "."); k >= 0 {
 				tn = tn[k+1:]
 			}
-			if tn != typ || jc.Val == nil {
+			if tn != typ {
 				continue
+			}
+			if jc.Val == nil {
+				break // the most recent parse into this type failed: no result
 			}
 			v := fieldByPath(jc.T, jc.Val, path)
 			switch x := v.(type) {
@@ -300,6 +323,11 @@ func (st *State) intrinsic(g *G, fr *Frame, name string, fn *ssa.Function, args 
 					return Ite(x.IsNil, BV(64, 1), BV(64, 2)), false
 				}
 				return x.S, false
+			case SliceVal:
+				if wantState {
+					return Ite(x.IsNil, BV(64, 1), BV(64, 2)), false
+				}
+				return st.bytesToStr(x), false
 			case PtrVal:
 				if x.L != nil {
 					if t, ok := st.load(x.L).(*Term); ok && t.Sort.K == KStr {
